@@ -11,12 +11,21 @@ CHECKS = {
 "C03": ("exploration", "Edit primitive: exhaustive small scope + random (text, span, suggestion) triples against a reference splice; real lints: every lint of generated documents of every front-end/config/dialect must lie inside the text and each of its suggestions must equal the reference splice.",
         "Reference splice is slice concatenation.",
         "property-based testing (proptest) + exhaustive small-scope enumeration; reference-model oracle"),
+"C04": ("exploration", "Files rendered from an abstract specification together with their ground truth (prose words and their char offsets; non-prose regions filled from a disjoint sentinel vocabulary incl. multi-byte text) for all 22 comment languages (every comment style, ignore markers, indentation, CRLF) and for Markdown, HTML, Literate Haskell, git-commit and Typst; oracle: the multiset of (offset, text) of Word tokens equals the prose-word list exactly and no lintable token lies in a non-prose region; each file is checked bare and with the server's identifier-collapsing wrapper.",
+        "Per-language code templates are syntactically valid by construction; Typst string literals are treated as prose except in the positional arguments harper-typst skips (lenient reading). One open known finding (Ruby =begin/=end).",
+        "property-based testing (proptest) with a constructive ground-truth oracle"),
 "C05": ("exploration", "Stateful: op sequences (SetConfig | Lint(doc, language)) on one long-lived LintGroup over a pool in which clause characters recur at other offsets / languages / configs; after every Lint the result must equal that of a freshly built linter. Plus 8 threads vs sequential, a linter moved across threads, two fresh processes byte-identical, LRU-eviction run (thorough).",
         "Differential against LintGroup::new_curated(..).with_lint_config(current) on the same Document.",
         "model-based / differential property testing over operation histories (proptest vec(op) + interpreter)"),
 "C06": ("exploration", "Every entry of the curated dictionary x 4 dialects enumerated alone (re-cased forms too), random entries inside sentence frames; conversely generated non-words must get exactly one Spelling lint with the exact span and only dictionary suggestions of the active dialect. Ground truth = the dictionary's own word list.",
         "Open known finding: 149 multi-token dictionary entries (exact list in known_findings.jsonl).",
         "exhaustive enumeration of the dictionary + property-based testing (proptest)"),
+"C07": ("fault_enumeration", "(a) Stateful LSP histories against the real harper-ls binary in a sandbox (add-to-user/file-dictionary with words taken from published diagnostics, change, restart) with a set model: added words are accepted in every subsequently checked text they apply to, other diagnostics unchanged, file dictionaries do not leak, the dictionary file (lines as a set) equals the model, restarts reproduce. (c) Crash points: each save is recorded under strace; every prefix of the globally ordered file mutations and every short write is replayed in a file-system model (validated to reproduce the real final state) and must reload to the previous words or those plus the new word.",
+        "Process death only (no power failure): a crash leaves a prefix of the recorded mutation sequence. Open known finding: a case variant of an earlier word replaces it (excluded by construction, exercised in a sub-run).",
+        "model-based property testing over LSP histories (proptest) + trace-and-replay crash-state enumeration (strace)"),
+"C08": ("exploration", "Generated multi-line documents (astral, combining, tabs, LF/CRLF, with/without trailing newline) opened in the real harper-ls under 9 language ids; for every diagnostic a codeAction request with its own range and at every char position inside it; oracle = independent LSP position arithmetic: diagnostic range == reference range of the embedded lint, every inside position returns that lint's fixes, each TextEdit applied like a client == Suggestion::apply on the char span; published set == in-process lints for plain/Markdown/HTML/Typst.",
+        "Lone CR line ends are outside the property's domain and are not generated.",
+        "property-based testing (proptest) against the real server; reference-model oracle"),
 "C11": ("exploration", "Additivity of rule switches as a metamorphic relation (lints(S) = lints(A)+lints(B), full singleton decomposition, switching one rule off removes exactly its lints, all-off = nothing), overlay algebra against a map model (fill_with_curated, merge_from, clear, JSON round trip, unknown keys), and the harper.js config path against the in-process model.",
         "Rules are the distinct configuration keys (iter_keys de-duplicated).",
         "metamorphic + model-based property testing (proptest)"),
